@@ -64,27 +64,17 @@ def run_shard(spec, acc):
 def gen(rnd, relative_style):
     depth = rnd.choice([2, 3, 4, 5])
     names = trees.NAMES if rnd.random() < 0.7 else ["a", "ab", "a_b", "aa", "a0", "ba", "b"]
-    spec = trees.random_project(rnd, depth=depth, imports_per_file=(0, 3), names=names, name_imports=0.3)
+    spec = trees.random_project(rnd, depth=depth, imports_per_file=(0, 3), names=names, name_imports=0.3, externals=0.1, dangling=0.08)
+    for f in sorted(spec["files"]):
+        if f.endswith(".py") and rnd.random() < 0.25:
+            spec["files"][f] = "from . import not_a_module_name\n" + spec["files"][f]
     if relative_style:
         # rewrite some absolute imports relative to the parent of a randomly chosen module_path
         dirs = [d for d in trees.all_dirs(spec) if d]
         if dirs:
             mp = rnd.choice(dirs)
             spec["_mp_hint"] = mp
-            parent = trees.mod_of("proj", os.path.dirname(mp))
-            for f, src in list(spec["files"].items()):
-                if not (f.startswith(mp + "/")):
-                    continue
-                out = []
-                for line in src.split("\n"):
-                    for kw in ("import ", "from "):
-                        if line.startswith(kw + parent + ".") and rnd.random() < 0.6:
-                            rest = line[len(kw) + len(parent) + 1 :]
-                            target = rest.split(" ")[0]
-                            if target.startswith(os.path.basename(mp)):
-                                line = kw + rest
-                    out.append(line)
-                spec["files"][f] = "\n".join(out)
+            trees.relativise(spec, mp, rnd)
     return spec
 
 
@@ -160,6 +150,15 @@ def one_tree(tspec, relative_style, acc, rnd, only_mp=None):
         acc.count("entry_point_equivalences")
         if so.state != full.state:
             HUB.violation("C04", "module-object-entry-point-differs", "module-object entry point built a different architecture for the root", {"nodes_diff": sorted(so.nodes ^ full.nodes), "imports_diff": sorted(so.imps ^ full.imps)})
+        # the module set must not depend on whether external libraries are kept
+        if rnd.random() < 0.5 or only_mp is not None:
+            c3 = dict(case, include=True)
+            HUB.case = c3
+            get_evaluable_architecture(root, root, exclude_external_libraries=False)
+            si = HUB.scan_events[-1]
+            acc.evaluated()
+            acc.count("include_mode_scans")
+            attribute_scan_findings(si, MAPPING, c3)
         acc.count("trees")
     finally:
         trees.remove_tree(root)
@@ -176,7 +175,7 @@ def floors(acc, tier):
     why = []
     if acc.counters["scans_judged"] < 200:
         why.append(f"only {acc.counters['scans_judged']} scans judged")
-    for c, n in (("subscan_equivalences", 100), ("entry_point_equivalences", 100), ("prefix_sibling_trees", 10), ("via_prefix_statements", 10)):
+    for c, n in (("subscan_equivalences", 100), ("entry_point_equivalences", 100), ("prefix_sibling_trees", 10), ("via_prefix_statements", 10), ("include_mode_scans", 30)):
         if acc.counters[c] < n:
             why.append(f"{c}: only {acc.counters[c]}")
     if acc.counters["scan_model_errors"]:
